@@ -121,6 +121,7 @@ impl WithT for Run<'_> {
         let mut sig = Sig::new();
         sig.add(c.kind as u64);
         let (mut max_conns, mut unknown_pkt) = (0usize, false);
+        let mut dup_request = false;
         let find = |conns: &Vec<MConn>, peer: (u64, u32), port: u32| conns.iter().position(|m| m.peer == peer && m.port == port);
         for (i, op) in c.ops.iter().enumerate() {
             let what = format!("op #{} {:?}", i, op);
@@ -274,8 +275,11 @@ impl WithT for Run<'_> {
                     let peer_a = PEERS[*peer as usize % 3];
                     let port_v = PORTS[*port as usize % 3];
                     let idx = find(&conns, peer_a, port_v);
-                    // not generated: a second REQUEST for a connection that already exists
-                    if *pop == 1 && !*bad_cid && (idx.is_some() || expected_polls.iter().any(|(q, _)| q.op == 1 && (q.src_cid, q.src_port) == peer_a && q.dst_port == port_v && q.dst_cid == GUEST_CID)) {
+                    // not generated: a second REQUEST while one of the same peer for the same port is
+                    // still waiting to be polled. A REQUEST for a connection that already exists *is*
+                    // generated: what happens to that connection is the implementation's choice, but
+                    // every other connection must stay untouched (see Poll).
+                    if *pop == 1 && !*bad_cid && expected_polls.iter().any(|(q, _)| q.op == 1 && (q.src_cid, q.src_port) == peer_a && q.dst_port == port_v && q.dst_cid == GUEST_CID) {
                         continue;
                     }
                     let mut plen = if *pop == 5 { (*len as usize % 100) + 1 } else if *len % 8 == 7 { (*len as usize % 20) + 1 } else { 0 };
@@ -363,6 +367,33 @@ impl WithT for Run<'_> {
                                     want_tx.push((3, peer_a, pkt.dst_port, vec![], 0, 0));
                                 }
                             }
+                            (1, Some(k)) => {
+                                // Duplicate REQUEST for an existing connection. The property does not
+                                // say what becomes of *that* connection; the outcome is read off the
+                                // packet the driver answers with, and the model follows it. Anything
+                                // addressed elsewhere, and any later effect on another connection, is
+                                // caught by the ordinary lock-step comparison.
+                                dup_request = true;
+                                match &r {
+                                    Ok(None) => {}
+                                    Ok(Some(e)) if e.event_type == VsockEventType::ConnectionRequest && e.source == (VsockAddr { cid: peer_a.0, port: peer_a.1 }) && e.destination.port == pkt.dst_port => {}
+                                    other => return Err(format!("{}: duplicate request for an existing connection returned {:?}", what, other)),
+                                }
+                                let txn: Vec<Pkt> = dev.with(|d| d.h.tx[tx0..].to_vec());
+                                if txn.len() == 1 && (txn[0].dst_cid, txn[0].dst_port) == peer_a && txn[0].src_port == pkt.dst_port {
+                                    match txn[0].op {
+                                        3 => {
+                                            want_tx.push((3, peer_a, pkt.dst_port, vec![], 0, 0));
+                                            conns.remove(k);
+                                        }
+                                        2 => {
+                                            want_tx.push((2, peer_a, pkt.dst_port, vec![], 0, 0));
+                                            conns[k].established = true;
+                                        }
+                                        _ => {}
+                                    }
+                                }
+                            }
                             (_, None) => {
                                 unknown_pkt = true;
                                 if r != Ok(None) {
@@ -448,6 +479,9 @@ impl WithT for Run<'_> {
         if unknown_pkt {
             st.class("packet_for_unknown_connection");
         }
+        if dup_request {
+            st.class("duplicate_request_for_existing_connection");
+        }
         if max_conns >= 2 && unknown_pkt {
             st.nontrivial(sig.get(), || json!({"kind": c.kind, "policy": c.policy, "ops": c.ops.iter().take(40).collect::<Vec<_>>()}));
         }
@@ -497,7 +531,7 @@ pub fn run(ctx: &Ctx) -> Report {
             level: "exploration",
             rule: "proptest histories over 3 peers x 3 local ports: listen, unlisten, connect, send, recv, shutdown, force_close, update_credit, poll, and peer packets REQUEST, RESPONSE, RST, SHUTDOWN, RW (payload tagged with the connection id), CREDIT_UPDATE, CREDIT_REQUEST, op 0, op >= 8, control packets carrying data, wrong destination CID, packets for unknown connections; all transports and device policies. A reference model of the connection table is driven in lock-step: every poll result, every transmitted packet (op, addressing, flags, buf_alloc, fwd_cnt, payload) and every recv result is compared; after every operation the device must hold all 8 receive buffers. Non-trivial = >=2 simultaneous connections plus a packet for an unknown connection. distinct = (transport, op kinds, packet ops).",
             assumptions: vec![
-                "a second REQUEST for an existing connection is not generated (behaviour unspecified by the property)".into(),
+                "the fate of a connection that receives a second REQUEST is unspecified by the property: the model follows the driver's observable answer (nothing, RST = dropped, RESPONSE = accepted again) for that connection only; all other connections stay under the strict lock-step comparison".into(),
                 "results of send/update_credit after the peer has shut down are not compared (unconstrained by the property)".into(),
             ],
             exhaustive: false,
